@@ -219,7 +219,10 @@ func c18Prop(c *sim.Case) {
 		by := createdBy[presentedToB]
 		if by != B {
 			sig := "foreign-session-honoured"
-			if sameStore {
+			if presentedToB == "" {
+				// nothing was presented under B's cookie name: B picked the session up from a cookie that is not its own
+				sig = "foreign-cookie-name-accepted"
+			} else if sameStore {
 				sig = "shared-store:renamed-cookie:" + A.store
 			} else {
 				sig = "foreign-session-honoured:" + A.store + "->" + B.store
